@@ -19,7 +19,8 @@ for d in sorted(glob.glob('/verif/seeded/C*')):
     checks = re.findall(r'check (C\d+) on seeded tree: exit=(\d+); (\d+) VIOLATION line\(s\); first: (.*)', log)
     detected = [c for c, rc, n, _ in checks if rc == '1' and int(n) > 0]
     baseline_timeouts = {'test_div_extension','test_cyclic_recursion','test_recursive_recursive_verifier','test_recursive_verifier','test_recursive_verifier_one_lookup'}
-    extra_fail = [f for f in (fails or '').split() if f.split('::')[-1] not in baseline_timeouts and f != 'none']
+    rerun_passed = set((grab(r'rerun of tests that timed out under load: .*?passed: (.*)') or '').split())
+    extra_fail = [f for f in (fails or '').split() if f.split('::')[-1] not in baseline_timeouts and f != 'none' and f not in rerun_passed]
     meta = {
         'property': sid[:3],
         'breaks': am.get('summary') or am.get('property'),
@@ -31,7 +32,7 @@ for d in sorted(glob.glob('/verif/seeded/C*')):
         ],
         'confirmation': {
             'demo_exit_pristine': demo_p, 'demo_exit_seeded': demo_s,
-            'suite_on_seeded_tree': suite, 'suite_failures_beyond_baseline_timeouts': extra_fail,
+            'suite_on_seeded_tree': suite, 'timeouts_rerun_and_passed': sorted(rerun_passed), 'suite_failures_beyond_baseline_timeouts': extra_fail,
             'checks': [{'check': c, 'exit': int(rc), 'violation_lines': int(n), 'first': first[:300]} for c, rc, n, first in checks],
         },
         'confirmed': demo_p == '0' and demo_s not in (None, '0') and not extra_fail and suite is not None,
